@@ -5,7 +5,7 @@ import json
 import os
 
 import serverlib as sl
-from common import (Rng, assumptions, coq_make, harness_build, harness_bin, hygiene, load_known, log, regen, seed, sh,
+from common import (coqchk, Rng, assumptions, coq_make, harness_build, harness_bin, hygiene, load_known, log, regen, seed, sh,
                     write_evidence, write_replay, TRUSTED_BASE, WORK)
 
 PROP = "C13"
@@ -162,6 +162,10 @@ def run(tier, replay=None):
         broken.append("Props/C13.vo does not compile: " + (mk2 or "")[-1500:])
     elif [t for t in THEOREMS if closed.get(t) != "closed"]:
         broken.append("not closed under the global context: %s" % [t for t in THEOREMS if closed.get(t) != "closed"])
+    if thorough and ok_props:
+        okc, summ = coqchk(PROP)
+        if not okc:
+            broken.append("independent checker: " + summ)
     okb, bout = harness_build("debug")
     if not okb:
         rp = write_replay(PROP, "harness_build", {"what": "harness does not build against /repo", "log": bout[-4000:]})
